@@ -15,7 +15,8 @@ RULE = (
     "coordinate variances are spread over four decades; key sets of 1-4 keys with shapes (),(2,),(3,),(2,2), "
     "every permutation of the listing order, diagonal and dense mode, histories that also contain other "
     "kernels' keys; (b) engine level: real sampling with 1-3 slow epochs, a co-existing kernel on other keys, "
-    "the engine supplying the history; tuned matrix read from the stored kernel states. Flat coordinates are "
+    "the engine supplying the history (also two gradient-based kernels with user identifiers in non-alphabetical order, "
+    "mixed-case key names, histories with fewer draws than coordinates); tuned matrix read from the stored kernel states. Flat coordinates are "
     "identified through ravel_pytree(kernel.position(state)) with marker values. non-trivial = listing order "
     "that is not the sorted order and two coordinates with variance ratio > 10; distinct by (keys, order, mode)"
 )
